@@ -94,12 +94,19 @@ def digest(obj: T.Any) -> str:
 
 
 def load_known_findings() -> T.List[dict]:
-    p = os.path.join(VERIF, 'known_findings.json')
-    try:
-        with open(p, encoding='utf-8') as f:
-            return json.load(f)['findings']
-    except FileNotFoundError:
-        return []
+    """known_findings.json (committed; never written at run time) plus per-property drafts in known_findings.d/."""
+    out: T.List[dict] = []
+    paths = [os.path.join(VERIF, 'known_findings.json')]
+    d = os.path.join(VERIF, 'known_findings.d')
+    if os.path.isdir(d):
+        paths += [os.path.join(d, n) for n in sorted(os.listdir(d)) if n.endswith('.json')]
+    for p in paths:
+        try:
+            with open(p, encoding='utf-8') as f:
+                out += json.load(f).get('findings', [])
+        except (FileNotFoundError, ValueError):
+            pass
+    return out
 
 
 class Check:
